@@ -220,10 +220,10 @@ func (cs Case) file() (*plyref.File, plyref.Layout) {
 // ---------------------------------------------------------------------------------------------
 
 const (
-	clauseLoad  = "a file that follows the specification loads without error"
-	clauseVert  = "vertex i carries exactly the values of record i; recognised groups become the corresponding attributes and unknown scalars become scalar attributes"
-	clauseFaces = "faces become triangles over their listed vertices; each quad contributes the fan triangles (0,1,2) and (0,2,3)"
-	clauseUV    = "the texture coordinates of a face's texcoord list arrive at the corresponding corners"
+	clauseLoad   = "a file that follows the specification loads without error"
+	clauseVert   = "vertex i carries exactly the values of record i; recognised groups become the corresponding attributes and unknown scalars become scalar attributes"
+	clauseFaces  = "faces become triangles over their listed vertices; each quad contributes the fan triangles (0,1,2) and (0,2,3)"
+	clauseUV     = "the texture coordinates of a face's texcoord list arrive at the corresponding corners"
 	clauseReader = "the file loads to the mesh it describes whatever io.Reader delivers its bytes (result identical to the *bytes.Reader delivery)"
 )
 
